@@ -46,6 +46,16 @@ def showPlan : UfsPlan.Plan → String
 def bool? (s : String) : Option Bool := if s == "1" then some true else if s == "0" then some false else none
 def optNatU? (s : String) : Option (Option Nat) := if s == "-" then some none else (nat? s).map some
 
+/-- [0,1,2,5,6] ↦ "0-2,5-6" -/
+def showRuns (l : List Nat) : String :=
+  let rec go : List Nat → Option (Nat × Nat) → List String → List String
+    | [], none, acc => acc
+    | [], some (a, b), acc => acc ++ [s!"{a}-{b}"]
+    | x :: xs, none, acc => go xs (some (x, x)) acc
+    | x :: xs, some (a, b), acc => if x == b + 1 then go xs (some (a, x)) acc else go xs (some (x, x)) (acc ++ [s!"{a}-{b}"])
+  let r := go l none []
+  if r.isEmpty then "-" else ",".intercalate r
+
 def ufs (cmd : String) (args : List String) : Option String :=
   match cmd, args with
   | "npmode", [perm, flags, dotu] => do
@@ -75,6 +85,16 @@ def ufs (cmd : String) (args : List String) : Option String :=
     let es ← list? nat? ends
     let total := es.getLastD 0
     some (showW (window es total (← nat? off) (← nat? cnt)) ++ " ## !panic")
+  | "readdir0", [ends, cnt, start] => do
+    let es ← list? nat? ends
+    let total := es.getLastD 0
+    let start ← nat? start
+    match readdir0 es total (← nat? cnt) (es.length + 2) start start [] with
+    | some (got, off) =>
+      -- entries by their position in the listing, runs compressed
+      let pos := got.map (fun e => (es.takeWhile (· != e)).length)
+      some s!"ok {showRuns pos} off={off}"
+    | none => some "error"
   | "readn", [flen, io, off, n] => do
     let file : Bytes := List.replicate (← nat? flen) 7
     let n ← nat? n
